@@ -1250,7 +1250,9 @@ void generate(const std::string &prop, Rng &wl, Rng &fl, Case &c)
     static const int64_t ivs[] = {100, 1000, 60000};
     int64_t iv                 = wl.pick(ivs);
     c.set("interval_ms", iv);
-    c.set("timeout_ms", iv / 2);
+    // a 1 ms export timeout makes the "collect took too long, export cancelled" path common
+    // (with 100 us per schedule point every cycle exceeds it)
+    c.set("timeout_ms", wl.chance(0.3) ? 1 : iv / 2);
   }
 
   // A spin lock held across a slow Export costs every contender ~105 points per
